@@ -7,11 +7,11 @@ package main
 // mutation must act on words this function allocated since the last time the value was shared.
 
 import (
-	"sort"
 	"fmt"
 	"go/ast"
 	"go/token"
 	"go/types"
+	"sort"
 	"strings"
 )
 
